@@ -5036,9 +5036,9 @@ class Entity(object, metaclass=EntityMeta):
 
             def undo_func():
                 if obj._status_ == 'marked_to_delete':
-                    assert objects_to_save
-                    obj2 = objects_to_save.pop()
-                    assert obj2 is obj
+                    # a cascading delete queues the dependents before their owner, but the owner's undo function is
+                    # registered first and therefore runs last: the object is not necessarily the last one queued
+                    objects_to_save.remove(obj)
                     if save_pos is not None:
                         assert objects_to_save[save_pos] is None
                         objects_to_save[save_pos] = obj
